@@ -15,7 +15,9 @@ func init() {
 			"after a recovery, on an empty database, two cycles in a row; explicit-Sync and sync-every-write modes alternate). For every Close that returned " +
 			"nil, power-loss images (family of C06: minimal, maximal, single-inode loses/keeps, PRNG prefixes with tears) are materialised at the boundary " +
 			"right after Close and at EVERY file-system-call boundary of the following Open; each image must open with the real Open and read back exactly " +
-			"the closed contents (Items/Count/Get/Has). evaluations = images recovered (de-duplicated); distinct_nontrivial = distinct (closed-database " +
+			"the closed contents (Items/Count/Get/Has). Sessions that only compact are included. Finally every file-system call of a Close is failed " +
+			"once (fault injection): whenever that Close returns nil anyway, the power-loss images right after it must still open with the closed contents. " +
+			"evaluations = images recovered (de-duplicated); distinct_nontrivial = distinct (closed-database " +
 			"fingerprint, boundary inside the next Open, image) triples for non-empty databases; closes of an empty database are trivial.",
 		Assumptions: []string{
 			"power-loss model of the property (C06)",
@@ -28,7 +30,7 @@ func init() {
 			return 48
 		},
 		Run:     runC09,
-		Require: []string{"closes_checked", "closes_after_recovery", "closes_multi_segment", "closes_with_chain", "closes_empty_db", "mode_syncwrites", "mode_explicit", "boundaries_inside_next_open"},
+		Require: []string{"closes_checked", "closes_after_recovery", "closes_multi_segment", "closes_with_chain", "closes_empty_db", "mode_syncwrites", "mode_explicit", "boundaries_inside_next_open", "compaction_only_sessions", "faulty_closes"},
 	})
 }
 
@@ -143,6 +145,15 @@ func runC09(c *core.Ctx) {
 			doClose() // two Close/Open cycles in a row (idle session)
 			c.Stat("idle_sessions", 1)
 		}
+		if rng.Intn(3) == 0 && hb.Failed == "" {
+			// a session that only compacts: the index is rewritten without any Put/Delete
+			if cr := hb.Compact(); cr.CompactedSegments > 0 {
+				c.Stat("compaction_only_sessions", 1)
+			}
+			if hb.Failed == "" {
+				doClose()
+			}
+		}
 	}
 	if hb.Failed != "" {
 		c.Violation("live-mismatch", "history failed before any fault was injected: "+hb.Failed,
@@ -247,8 +258,86 @@ func runC09(c *core.Ctx) {
 			}
 		}
 	}
+	if c.Violations() == 0 {
+		c09FaultyClose(c, hb, cfg, ks, seed)
+	}
 	if c.Case < 2 {
 		c.Sample(map[string]interface{}{"hash_seed": seed, "config": cfg, "nkeys": len(ks.Keys), "closes": len(closes),
 			"calls": len(h.Iv), "first_calls": histData(h, 12)})
+	}
+}
+
+// c09FaultyClose: every file-system call made by Close is failed once (on a copy that is opened, written to and
+// closed). Whenever Close returns nil although a call failed, the power-loss images right after that Close must
+// still open with exactly the closed contents - the statement starts with "After Close returns nil".
+func c09FaultyClose(c *core.Ctx, hb *core.HB, cfg core.Config, ks *core.KeySet, seed uint32) {
+	base := hb.Env.Crash.Snapshot()
+	want := hb.Ref.Clone()
+	for k := 0; k < 300; k++ {
+		cenv := core.CrashEnvFromImage(base)
+		ffs := core.NewFaultFS(cenv.FS)
+		cenv.FS = ffs
+		db, err := cenv.Open(cfg)
+		if err != nil {
+			c.Violation("open-error", "opening a crash image of the final state failed: "+err.Error(), nil)
+			return
+		}
+		ref := want.Clone()
+		for i := 0; i < 6; i++ {
+			key := ks.Keys[(k+i*7)%len(ks.Keys)]
+			val := core.MakeVal(100000+k*8+i, 20+i*30)
+			if err := db.Put(key, val); err != nil {
+				c.Violation("put-error", err.Error(), nil)
+				return
+			}
+			ref[string(key)] = string(val)
+		}
+		ffs.Arm(k)
+		cerr := db.Close()
+		fired := ffs.Fired
+		ffs.Disarm()
+		if fired == "" {
+			break
+		}
+		c.Stat("faulty_closes", 1)
+		if cerr != nil {
+			continue
+		}
+		c.Stat("faulty_closes_returned_nil", 1)
+		log := cenv.Crash.Log
+		r := crashfs.NewPowerReplayer(base, log)
+		r.Advance(len(log))
+		pend := r.Pending()
+		names := r.InoNames()
+		images := []struct {
+			label string
+			keep  func(ino int, p []crashfs.Op) (int, int)
+		}{{"maximal", func(ino int, p []crashfs.Op) (int, int) { return len(p), -1 }}, {"minimal", func(ino int, p []crashfs.Op) (int, int) { return 0, -1 }}}
+		for ino := range pend {
+			t := ino
+			images = append(images, struct {
+				label string
+				keep  func(ino int, p []crashfs.Op) (int, int)
+			}{"only " + names[t] + " loses", func(ino int, p []crashfs.Op) (int, int) {
+				if ino == t {
+					return 0, -1
+				}
+				return len(p), -1
+			}})
+		}
+		for _, im := range images {
+			c.Eval(1)
+			st, _, _, err := core.RecoverImage(r.Image(im.keep), cfg, ks.Keys)
+			if err != nil {
+				c.Violation("close-nil-after-fault-not-durable", fmt.Sprintf("Close returned nil although its file-system call #%d (%s) failed; power loss right afterwards (image '%s', unsynced %v): Open fails: %v", k, fired, im.label, pend, err),
+					map[string]interface{}{"hash_seed": seed, "config": cfg, "failed_call": fired})
+				return
+			}
+			if !st.Equal(ref) {
+				c.Violation("close-nil-after-fault-not-durable", fmt.Sprintf("Close returned nil although its file-system call #%d (%s) failed; power loss right afterwards (image '%s', unsynced %v): contents differ: %s", k, fired, im.label, pend, st.Diff(ref, 3)),
+					map[string]interface{}{"hash_seed": seed, "config": cfg, "failed_call": fired})
+				return
+			}
+		}
 	}
 }
